@@ -164,10 +164,11 @@ def run_scenario(run, e4, sc):
                 v.append(("accepted-connection-dropped/sync", "%d of %d connections were closed without a response (sync worker)" % (
                     len(dropped), len(log))))
             else:
-                run.count("info_closed_without_bytes_nonsync", len(dropped))
-                if len(dropped) > max(3, 0.02 * len(log)):
-                    return v, "too many (%d of %d) connections closed with zero bytes on %s to call it the accepted-but-unread case" % (
-                        len(dropped), len(log), wc), info
+                # a worker that leaves at a reload with connections it has accepted but not yet read (the same defect as at
+                # max_requests, C18): recorded per worker class
+                run.count("closed_without_bytes/" + wc, len(dropped))
+                v.append(("accepted-connection-dropped-at-reload/" + wc, "%d of %d connections were closed without a byte of response "
+                          "around the reload (%s worker)" % (len(dropped), len(log), wc)))
         if sc.get("long_request"):
             r = longres.get("r")
             if not r or r["outcome"] != "ok" or not e4.body_of(r["data"]).endswith(b"|END"):
